@@ -2,7 +2,7 @@
 # seedtest.sh <seeded-dir> [--demo] : applies <seeded-dir>/patch.diff to a scratch worktree of /repo HEAD, (optionally verifies the
 # demonstration with and without the change), runs the property's quick check against that tree and prints DETECTED / MISSED.
 d=$(realpath "$1"); shift
-id=$(python3 -c "import json;print(json.load(open('$d/meta.json'))['property'])")
+id=${SEED_PROP:-$(python3 -c "import json;print(json.load(open('$d/meta.json'))['property'])")}
 wt=/tmp/seedtest/$(basename $d)-$$
 export GOFLAGS=-mod=mod GOPROXY=off GOSUMDB=off GOTOOLCHAIN=local
 mkdir -p /tmp/seedtest; git -C /repo worktree add --detach $wt HEAD >/dev/null 2>&1 || { echo "worktree failed"; exit 2; }
